@@ -2,7 +2,9 @@
 reachable state; usage = sum of allocations; per-consumer and per-provider views agree; read-after-write; rejected
 requests change no read; only the successful requests matter) + (1) differential histories of WRITES (statuses,
 error codes, generations, table dumps: model vs application), (2) after every request of generated histories ALL
-read routes for every provider / consumer / project of the pools, at the microversions on both sides of every
+read routes for every provider / consumer / project of the pools (and, since the class and trait reads joined the model,
+GET /traits with name=in: / associated filters, GET /traits/{name}, GET /resource_classes, GET /resource_classes/{name} for
+the names of the pools and unknown ones: reads.name_queries, 48 per state), at the microversions on both sides of every
 representation change, compared with Model/Reads.v inside Coq, (3) an implementation-side oracle on the same
 answers (usage = sum over consumers, the two allocation views agree, reads unchanged by a rejected request) used to
 find a failing input when a proof or the tie breaks."""
@@ -22,8 +24,8 @@ from harness import ops
 from harness import oracles
 from harness import reads
 
-DEPS = checks_seq.MODEL + ['Model/Conc.v', 'Model/ConcTree.v', 'Model/ConcAll.v', 'Model/Reads.v', 'Spec/ApiSpec.v', 'Proofs/C08.v', 'Proofs/C09.v', 'Proofs/C11.v']
-BUDGET = {'quick': (8, 36), 'thorough': (240, 40)}        # histories, requests per history (each followed by ~250 reads)
+DEPS = checks_seq.MODEL + ['Model/Conc.v', 'Model/ConcTree.v', 'Model/ConcAll.v', 'Model/Reads.v', 'Spec/ApiSpec.v', 'Proofs/C08.v', 'Proofs/C09.v', 'Proofs/C19.v', 'Proofs/C11n.v', 'Proofs/C11.v']
+BUDGET = {'quick': (8, 36), 'thorough': (240, 40)}        # histories, requests per history (each followed by ~300 reads)
 
 
 def c11_write_oracle(op, obs, before, after):
@@ -257,11 +259,12 @@ def run(pid, tier, out):
            'trusted_base': common.TRUSTED_BASE + [
                'Model/Reads.v: hand-written model of the read handlers over the modelled tables; JSON serialisation is canonicalised by '
                'harness/reads.py:canon (field names per microversion are compared through the canonical tuple, not proved)',
-               'GET /resource_providers (listing) and GET /allocation_candidates are covered by C13 / C03, not here'],
+               'GET /resource_providers (listing) and GET /allocation_candidates are covered by C13 / C03, not here',
+               'GET /traits?name=startswith: is not modelled (names are opaque tokens)'],
            'theorems': [{'name': n, 'closed_under_global_context': c, 'assumptions': a} for n, c, a in ps['theorems']],
            'proof_error': ps['error'], 'hygiene_hits': hyg,
            'evaluations': n_reads + wstats['evaluations'], 'distinct_nontrivial': sum(v for k, v in cover.items() if k[2]) + len(wstats['distinct']),
-           'rule': '%d histories x %d generated requests, each followed by every read route for every provider/consumer/project of the '
+           'rule': '%d histories x %d generated requests, each followed by every read route for every provider/consumer/project/class/trait of the '
                    'pools at the microversions around each representation change (a case = one read after one prefix; non-trivial = '
                    'answered 200 with rows) + %d write histories x 30 requests compared with the model' % (n_hist, n_ops, len(cases)),
            'samples': [{'read_kinds': {('%s/%d/%s' % k): v for k, v in sorted(cover.items())[:12]}}],
